@@ -383,6 +383,78 @@ var TemplatesA = []Template{
 				b[4+j] = classify(b[j])
 			}
 		}},
+	{"bits-count-reverse-first", "u32", "", "buf[1] = countLeadingZeros(buf[0]); buf[2] = countTrailingZeros(buf[0]); buf[3] = countOneBits(buf[0]); buf[4] = reverseBits(buf[0]); buf[5] = firstLeadingBit(buf[0]); buf[6] = firstTrailingBit(buf[0]);", func(b []uint32) {
+		x := b[0]
+		b[1] = uint32(RefClz(x))
+		b[2] = uint32(RefCtz(x))
+		b[3] = uint32(RefPopc(x))
+		b[4] = RefRev(x)
+		b[5] = uint32(31 - RefClz(x)) // 0 -> 0xFFFFFFFF
+		tz := uint32(RefCtz(x))
+		b[6] = tz | -(tz >> 5) // 32 -> 0xFFFFFFFF
+	}},
+	{"bits-signed-first-leading-abs-minmax", "i32", "", "buf[1] = firstLeadingBit(buf[0]); buf[2] = countLeadingZeros(buf[0]); buf[3] = abs(buf[0]); buf[4] = min(buf[0], buf[5]); buf[6] = max(buf[0], buf[5]); buf[7] = clamp(buf[0], -3, 9);", func(b []uint32) {
+		x := b[0]
+		y := x ^ uint32(int32(x)>>31) // bits that differ from the sign
+		b[1] = uint32(31 - RefClz(y))
+		b[2] = uint32(RefClz(x))
+		m := uint32(int32(x) >> 31)
+		b[3] = (x ^ m) - m
+		lo, hi := x, b[5]
+		if I(hi) < I(lo) {
+			lo, hi = hi, lo
+		}
+		b[4], b[6] = lo, hi
+		c := x
+		if I(c) < -3 {
+			c = 0xFFFFFFFD
+		}
+		if I(c) > 9 {
+			c = 9
+		}
+		b[7] = c
+	}},
+	{"bits-extract-insert", "u32", "", "buf[2] = extractBits(buf[0], buf[1] & 31u, 5u); buf[3] = insertBits(buf[0], buf[4], 4u, 8u); buf[5] = extractBits(buf[0], buf[6], buf[7]);", func(b []uint32) {
+		ext := func(e, offset, count uint32) uint32 {
+			o := offset
+			if o > 32 {
+				o = 32
+			}
+			c := count
+			if c > 32-o {
+				c = 32 - o
+			}
+			// bits [o, o+c) of e: shift out the bits above, then down (64-bit to keep shifts < width)
+			return uint32((uint64(e) << (32 - c - o) & 0xFFFFFFFF) >> (32 - c) & (uint64(1)<<c - 1))
+		}
+		b[2] = ext(b[0], b[1]&31, 5)
+		b[3] = (b[0] &^ 0xFF0) | ((b[4] << 4) & 0xFF0)
+		b[5] = ext(b[0], b[6], b[7])
+	}},
+	{"pack-unpack-4x8", "u32", "", "let v = vec4<u32>(buf[0], buf[1], buf[2], buf[3]); buf[4] = pack4xU8(v) + 1u; let u = unpack4xU8(buf[5]); buf[6] = u.x + u.y * 2u + u.z * 3u + u.w * 4u;", func(b []uint32) {
+		b[4] = (b[0]&0xFF | (b[1]&0xFF)<<8 | (b[2]&0xFF)<<16 | (b[3]&0xFF)<<24) + 1
+		u := b[5]
+		b[6] = u&0xFF + (u>>8&0xFF)*2 + (u>>16&0xFF)*3 + (u>>24)*4
+	}},
+	{"dot-min-max-clamp-u32", "u32", "", "buf[2] = dot(vec2<u32>(buf[0], 2u), vec2<u32>(3u, buf[1])); buf[3] = min(buf[0], buf[1]) + max(buf[0], 7u) * 2u + clamp(buf[1], 1u, 7u) * 3u;", func(b []uint32) {
+		b[2] = b[0]*3 + 2*b[1]
+		mn := b[0]
+		if b[1] < mn {
+			mn = b[1]
+		}
+		mx := b[0]
+		if mx < 7 {
+			mx = 7
+		}
+		c := b[1]
+		if c < 1 {
+			c = 1
+		}
+		if c > 7 {
+			c = 7
+		}
+		b[3] = mn + mx*2 + c*3
+	}},
 }
 
 // BinAsTemplate turns an integer binary operator into a template: buf[2] = buf[0] OP buf[1].
@@ -452,4 +524,56 @@ func Source(t Template) string {
 		}
 	}
 	return fmt.Sprintf("@group(0) @binding(0) var<storage, read_write> buf: array<%s, 8>;\n%s\n@compute @workgroup_size(1) fn main(%s) {\n%s\n}", t.Ty, t.Decl, args, body)
+}
+
+// Reference bit counting, written bit by bit / by binary search from the WGSL definitions (the
+// evaluators use branch-free SWAR formulations, so agreement is checked by the solver).
+func RefPopc(x uint32) int {
+	n := uint32(0)
+	for i := uint(0); i < 32; i++ {
+		n += x >> i & 1
+	}
+	return int(n)
+}
+
+func RefRev(x uint32) uint32 {
+	var r uint32
+	for i := uint(0); i < 32; i++ {
+		r |= (x >> i & 1) << (31 - i)
+	}
+	return r
+}
+
+func RefClz(x uint32) int {
+	if x == 0 {
+		return 32
+	}
+	n := 0
+	if x>>16 == 0 {
+		n += 16
+		x <<= 16
+	}
+	if x>>24 == 0 {
+		n += 8
+		x <<= 8
+	}
+	if x>>28 == 0 {
+		n += 4
+		x <<= 4
+	}
+	if x>>30 == 0 {
+		n += 2
+		x <<= 2
+	}
+	if x>>31 == 0 {
+		n++
+	}
+	return n
+}
+
+func RefCtz(x uint32) int {
+	if x == 0 {
+		return 32
+	}
+	return 31 - RefClz(x&-x)
 }
